@@ -205,7 +205,23 @@ func repetitionKinds(u *Universe) (map[int64]string, string) {
 	if p == nil {
 		return nil, "runtime package not built"
 	}
-	g, _ := p.Members["fieldFuncs"].(*ssa.Global)
+	// the table of repetition setters: the package-level slice of functions NewOptionalField indexes by the last repetition code
+	var g *ssa.Global
+	if ctor := u.Func(rtPath, "NewOptionalField"); ctor != nil {
+		for _, b := range ctor.Blocks {
+			for _, ins := range b.Instrs {
+				if ld, ok := ins.(*ssa.UnOp); ok && ld.Op == token.MUL {
+					if gl, ok := ld.X.(*ssa.Global); ok {
+						if sl, ok := gl.Type().(*types.Pointer).Elem().Underlying().(*types.Slice); ok {
+							if _, isFn := sl.Elem().Underlying().(*types.Signature); isFn {
+								g = gl
+							}
+						}
+					}
+				}
+			}
+		}
+	}
 	if g == nil {
 		return nil, "parquet.fieldFuncs not found"
 	}
@@ -381,7 +397,17 @@ func laMaxLevels(c *Ctx, rule string) {
 		return
 	}
 	defF, repF := rtField(u, rtPath, "MaxLevel", "Def"), rtField(u, rtPath, "MaxLevel", "Rep")
-	repeatedF := rtField(u, rtPath, "OptionalField", "repeated")
+	// the flag that says whether repetition levels are written: the (only) bool field of OptionalField
+	var repeatedF *types.Var
+	if o := u.Pkgs[rtPath].Types.Scope().Lookup("OptionalField"); o != nil {
+		if st, ok := o.Type().Underlying().(*types.Struct); ok {
+			for i := 0; i < st.NumFields(); i++ {
+				if b, ok := st.Field(i).Type().Underlying().(*types.Basic); ok && b.Kind() == types.Bool {
+					repeatedF = st.Field(i)
+				}
+			}
+		}
+	}
 	if defF == nil || repF == nil || repeatedF == nil {
 		r.undecided(rule, key, u.Pos(ctor.Pos()), "MaxLevel.Def/Rep or OptionalField.repeated not found")
 		return
@@ -1131,7 +1157,7 @@ func laFooterMeta(c *Ctx, rule string, which map[string]bool) {
 	}
 	if which["seek"] {
 		rm := u.Func(rtPath, "ReadMetaData")
-		gs := u.Func(rtPath, "getMetaDataSize")
+		gs := roleFunc(u, rtPath, "metaSize")
 		key := "parquet.ReadMetaData footer position"
 		if rm == nil || gs == nil {
 			r.undecided(rule, key, "", "ReadMetaData / getMetaDataSize not found")
